@@ -283,7 +283,6 @@ def add_rtt(u):
     u.audit(T, 'update_estimate', impl='RttTracker', sig=['&mut self', 'rtt_ms: u64', 'now_ms: u64'],
             forbid=[r'waiting_for_keepalive_response\s*(=[^=]|\|=|&=)', r'last_keepalive_sent_ms\s*(=[^=]|\+=|-=)', r'self\.(reset|record_keepalive_sent|handle_keepalive_response)\('])
     u.audit(CONN, 'calculate_bitrate', impl='SrtlaConnection', sig=['&mut self', 'now_ms: u64'], require=[r'^\{ self\.bitrate\.calculate\(now_ms\); \}$'])
-    u.audit(CONN, 'queue_building_suspected', impl='SrtlaConnection', sig=['(&self)'])
     u.add(impl_block('Ewma', [u.fn(K + 'ewma.rs', 'reset', impl='Ewma', sub='reconn', ensures=['!final(self).initialized'])]))
     u.add(impl_block('RttTracker', [
         u.fn(T, 'reset', impl='RttTracker', sub='reconn',
@@ -302,6 +301,9 @@ def add_rtt(u):
                  C('C14.reconn.keepalive_response.ignored_when_not_waiting', '!old(self).waiting_for_keepalive_response ==> *final(self) == *old(self) && r is None'),
                  C('C14.reconn.keepalive_response.probe_consumed', '!final(self).waiting_for_keepalive_response'),
              ]),
+        u.fn(T, 'rtt_gradient_ms', impl='RttTracker', sub='select', ret='r', ensures=['r == self.spec_gradient()']),
+        u.fn(T, 'queue_building_suspected', impl='RttTracker', sub='select', ret='r', ensures=[
+            C('C17.classify.rtt.queue_building_is_gradient_above_3_masd_floored_at_5_percent_of_min_rtt_and_false_without_a_baseline', 'r == self.spec_queue_building()')]),
         u.fn(T, 'needs_measurement', impl='RttTracker', sub='reconn', ret='r', ensures=[
             C('C08+C14.reconn.rtt.probe_due_only_when_none_outstanding_and_3s_old', 'r == (connection_established_ms != 0 && connected && !self.waiting_for_keepalive_response && (self.last_rtt_measurement_ms == 0 || sub_sat(now_ms, self.last_rtt_measurement_ms) > 3000))')]),
     ]))
@@ -586,6 +588,7 @@ def add_connection(u):
             pass
     u.add(impl_block('SrtlaConnection', fns))
     u.add(S.CONN_FLOAT_STUBS)
+    u.add(impl_block('SrtlaConnection', [u.fn(CONN, 'queue_building_suspected', impl='SrtlaConnection', sub='select', ret='r', ensures=['r == self.spec_queue_building()'])]))
 
 
 # ------------------------------------------------------------------ selection
